@@ -48,6 +48,10 @@ type Cache struct {
 	DNSAutoAllocate bool
 	// AllowAny indicates if the proxy should allow all outbound traffic or only known registries
 	AllowAny bool
+	// IncludeRequestAttemptCount and AppendXForwardedHost are the proxy's own ProxyConfig.proxyHeaders
+	// settings that end up in the virtual hosts and route actions.
+	IncludeRequestAttemptCount bool
+	AppendXForwardedHost       bool
 
 	ListenerPort     int
 	Services         []*model.Service
@@ -138,6 +142,10 @@ func (r *Cache) Key() any {
 	h.WriteString(strconv.FormatBool(r.DNSAutoAllocate))
 	h.Write(Separator)
 	h.WriteString(strconv.FormatBool(r.AllowAny))
+	h.Write(Separator)
+	h.WriteString(strconv.FormatBool(r.IncludeRequestAttemptCount))
+	h.Write(Separator)
+	h.WriteString(strconv.FormatBool(r.AppendXForwardedHost))
 	h.Write(Separator)
 
 	for _, svc := range r.Services {
